@@ -24,7 +24,7 @@ EXPLANATION = (
     "of the arguments across the Python / Cython / C boundary against the real C prototype.")
 NOT_DECIDED = ["quadrature accuracy of the golden-spiral point set (numerical)", "analytic cap areas of overlapping spheres (numerical)"]
 ASSUMPTIONS = ["documented: area of an isolated atom = 4*pi*(r+probe)^2; unselected atoms / residues without selected atoms are reported as -1"]
-FLOORS = {"C13-R1": 1, "C13-R2": 5, "C13-R3": 2, "C13-R4": 10}
+FLOORS = {"C13-R1": 1, "C13-R2": 5, "C13-R3": 2, "C13-R4": 10, "C13-R5": 7}
 
 SP = "mdtraj/geometry/sasa.py"
 SC = "mdtraj/geometry/src/sasa.cpp"
@@ -67,6 +67,8 @@ def check(ctx):
     mask = [n for n in walk_no_nested(fn) if isinstance(n, ast.Assign) and dotted(n.targets[0]) == "atom_selection_mask" and "atom_indices" in src(n.value)]
     ok = bool(mask) and "1 if ii in atom_indices else 0" in src(mask[0].value) and "range(traj.n_atoms)" in src(mask[0].value)
     ctx.decide(ok, "C13-R2", mask[0] if mask else fn, SP, "shrake_rupley", "mask[i] = 1 iff i in atom_indices", "", "the selection mask is not the indicator of atom_indices over all atoms")
+    ctx.rule("C13-R5", "quadrature points are the golden-section spiral (y_i = (2i+1)/n - 1, r = sqrt(1-y^2), phi = i*pi*(3-sqrt5)); the blocker pre-filter keeps exactly the atoms with r2 < (R_i+R_j)^2")
+    r5(ctx, cf)
     # ---- R2/R3 C++ side
     af = cf.function(SC, "asa_frame")
     g = C.guards(af)
@@ -146,3 +148,80 @@ def check(ctx):
     ok = len(cargs) == len(cps) and all(a == alias.get(p, p) for a, p in zip(cargs, cps))
     ctx.decide(ok, "C13-R4", ccall[0] if ccall else pw, GP, "_sasa", "arguments of sasa() match the C prototype positionally", "%s" % cps,
                "the wrapper passes %s to sasa(%s)" % (cargs, ", ".join(cps)))
+
+
+# ---------------------------------------------------------------------------------------------------
+# R5: value numbering of the quadrature points and of the neighbour pre-filter
+# ---------------------------------------------------------------------------------------------------
+def r5(ctx, cf):
+    from ..symval import SymExec, State, Unsupported
+    from ..poly import Poly, Rat
+    fn = cf.function(SC, "generate_sphere_points")
+    ctx.analysed_functions.add(SC + ":generate_sphere_points")
+    body = C.kids(C.body_of(fn))
+    loops = [i for i, s in enumerate(body) if s["kind"] == "ForStmt"]
+    if len(loops) != 1:
+        raise AnalysisError("generate_sphere_points: expected one loop")
+    ex = SymExec(cf, SC)
+    try:
+        st = ex.run(body[:loops[0]], State())[0]
+        lb = [x for x in body[loops[0]]["inner"] if isinstance(x, dict) and x.get("kind") == "CompoundStmt"][0]
+        st.env["i"] = Rat(Poly.var("i"))
+        st = ex.run(C.kids(lb), st)[0]
+    except Unsupported as e:
+        raise AnalysisError("generate_sphere_points: %s" % e)
+    i, n = Rat(Poly.var("i")), Rat(Poly.var("n_points"))
+    y = st.env.get("y")
+    want_y = (2 * i + 1) / n - 1
+    ctx.decide(y is not None and y == want_y, "C13-R5", C.line(fn), SC, "generate_sphere_points", "y_i = (2i+1)/n - 1", "levels symmetric about the equator for every n",
+               "the level of point i is %r; the golden-section spiral the documentation cites uses (2i+1)/n - 1 (levels symmetric about the equator for every n, odd or even)" % (y,))
+    offs = st.env.get("offset")
+    ctx.decide(offs is not None and offs == 2 / n, "C13-R5", C.line(fn), SC, "generate_sphere_points", "offset = 2/n", "", "offset is %r" % (offs,))
+    r = st.env.get("r")
+    def opq(v):
+        """(function, args) when v is a single opaque call symbol"""
+        p = v.poly() if v is not None else None
+        if p is not None and len(p.t) == 1:
+            (m, c), = p.t.items()
+            if c == 1 and len(m) == 1 and m[0][1] == 1:
+                return ex.opaque.get(m[0][0])
+        return None
+    ro = opq(r)
+    ctx.decide(ro is not None and y is not None and ro[0] == "sqrt" and ro[1][0] == 1 - y * y, "C13-R5", C.line(fn), SC, "generate_sphere_points", "r = sqrt(1 - y^2)", "", "ring radius is %r" % (r,))
+    phi, inc = st.env.get("phi"), st.env.get("inc")
+    ok = phi is not None and inc is not None and phi == i * inc and len(inc.vars()) == 1 and inc.poly() is not None and inc.poly().degree() == 1
+    if ok:
+        p = inc.poly()
+        sv = list(inc.vars())[0]
+        ok = ex.opaque.get(sv, ("", []))[0] == "sqrt" and ex.opaque[sv][1][0] == 5
+        c1 = float(p.coeff_of(sv, 1).const_value())
+        c0 = float(p.coeff_of(sv, 0).const_value())
+    if ok:
+        ok = abs(c1 + 3.141592653589793) < 1e-6 and abs(c0 - 3 * 3.141592653589793) < 1e-6
+    ctx.decide(ok, "C13-R5", C.line(fn), SC, "generate_sphere_points", "phi_i = i * pi*(3 - sqrt 5) (golden angle)", "", "azimuth is %r with increment %r" % (phi, inc))
+    x0, y0, z0 = (st.env.get(("sphere_points", k)) for k in ("3*i", "1 + 3*i", "2 + 3*i"))
+    ok = y0 is not None and y is not None and y0 == y and x0 is not None and z0 is not None and r is not None and phi is not None and \
+        x0 == ex.opaque_call("cos", [phi]) * r and z0 == ex.opaque_call("sin", [phi]) * r
+    ctx.decide(ok, "C13-R5", C.line(fn), SC, "generate_sphere_points", "point i = (r cos phi, y, r sin phi)", "", "stored coordinates are %r, %r, %r" % (x0, y0, z0))
+    # neighbour pre-filter: exactly the atoms whose expanded spheres overlap
+    af = cf.function(SC, "asa_frame")
+    g = C.guards(af)
+    stores = [x for x in C.walk(af) if x["kind"] == "BinaryOperator" and x.get("opcode") == "=" and C.root_var(C.kids(x)[0])[0] == "neighbor_indices"]
+    if len(stores) != 1:
+        raise AnalysisError("asa_frame: store into neighbor_indices not found")
+    facts = sorted(set(g.get(stores[0]["id"], [])))
+    want = sorted({("(i==j)", False), ("in_selection", True), ("(r2<radius_cutoff2)", True)})
+    ctx.decide(facts == want, "C13-R5", C.line(stores[0]), SC, "asa_frame", "j is a blocker iff j != i and r2 < (R_i + R_j)^2", str(facts),
+               "atom j is recorded as a blocker under %s; every atom whose expanded sphere reaches into that of i must be kept (an enclosing sphere blocks all points)" % facts)
+    # the quantities in the test
+    pair = [x for x in C.walk(af) if x["kind"] == "ForStmt"]
+    inner = [x for x in C.walk(af) if x["kind"] == "ForStmt" and any(v.get("name") == "radius_cutoff2" for v in C.walk(x) if v["kind"] == "VarDecl")]
+    inner = inner[-1]
+    ib = [x for x in inner["inner"] if isinstance(x, dict) and x.get("kind") == "CompoundStmt"][0]
+    decls = {}
+    for v in C.walk(ib):
+        if v["kind"] == "VarDecl" and C.kids(v):
+            decls[v.get("name")] = re.sub(r"\s", "", C.text(C.kids(v)[-1]))
+    ok = decls.get("radius_cutoff") == "(atom_radius_i+atom_radius_j)" and decls.get("radius_cutoff2") == "(radius_cutoff*radius_cutoff)" and \
+        decls.get("r2") == "dot3(r_ij,r_ij)" and decls.get("r_ij") == "(r_i-r_j)" and decls.get("atom_radius_j") == "atom_radii[j]"
+    ctx.decide(ok, "C13-R5", C.line(inner), SC, "asa_frame", "r2 = |r_i - r_j|^2, cutoff = (R_i + R_j)^2", "", "pre-filter quantities are %s" % {k: decls.get(k) for k in ("radius_cutoff", "radius_cutoff2", "r2", "r_ij", "atom_radius_j")})
